@@ -106,14 +106,27 @@ func propC11(rec *stats.Rec, sc *scratch, exclude map[string]bool) func(t *rapid
 		nDirs := rapid.IntRange(1, 3).Draw(t, "nDirs")
 		var dirs []string
 		exists := map[string]bool{}
+		// one configuration in four nests the second directory in the first (the scan of the outer one ignores
+		// subdirectories; the inner one is a Spec directory of its own, with higher priority)
+		nested := nDirs >= 2 && rapid.IntRange(0, 3).Draw(t, "nested") == 0
 		for i := 0; i < nDirs; i++ {
 			d := filepath.Join(root, fmt.Sprintf("d%d", i))
+			if nested && i == 1 {
+				d = filepath.Join(dirs[0], "sub")
+			}
 			dirs = append(dirs, d)
 			if rapid.IntRange(0, 3).Draw(t, fmt.Sprintf("d%dExists", i)) != 0 {
 				_ = os.MkdirAll(d, 0o755)
-				exists[d] = true
 			}
 		}
+		// what exists is read from the file system (removing or renaming an outer directory takes the inner one along)
+		syncExists := func() {
+			for _, d := range dirs {
+				st, err := os.Stat(d)
+				exists[d] = err == nil && st.IsDir()
+			}
+		}
+		syncExists()
 		outside := filepath.Join(root, "outside")
 		_ = os.MkdirAll(outside, 0o755)
 		// initial content
@@ -169,6 +182,10 @@ func propC11(rec *stats.Rec, sc *scratch, exclude map[string]bool) func(t *rapid
 			}
 			history = append(history, c11Step{op, p})
 			labels["op:"+strings.SplitN(op, " ", 2)[0]] = true
+			syncExists()
+			if nested {
+				labels["nested-directories"] = true
+			}
 		}
 		pickDir := func(t *rapid.T) string {
 			ex := existingDirs()
